@@ -286,6 +286,22 @@ def check(spec, ctx):
                 else:
                     competing_any = competing_any or competing
                     multi_any = multi_any or any(len(t) > 1 for t in allowed)
+    if spec.get("rng", 1) % 4 == 0 and spec["tables"].get("dihedrals"):
+        # an earlier topology in the same process: the same system with a poorer dihedral table (only its
+        # least specific entries). What it resolved to says nothing about the topology read afterwards.
+        import copy
+        poorer = copy.deepcopy(spec)
+        most = max((e["key"][:4].count("X") for e in poorer["tables"]["dihedrals"]), default=0)
+        poorer["tables"]["dihedrals"] = [e for e in poorer["tables"]["dihedrals"]
+                                         if most and e["key"][:4].count("X") == most]
+        if len(poorer["tables"]["dihedrals"]) < len(spec["tables"]["dihedrals"]):
+            early = ctx.dir / "earlier.top"
+            early.write_text(render(poorer))
+            try:
+                Topology.from_gmx_topfile(str(early), "earlier").preprocess()
+            except Exception:
+                pass
+            ctx.label("after_a_topology_with_a_poorer_dihedral_table")
     try:
         topology = Topology.from_gmx_topfile(str(path), "test")
         topology.preprocess()
